@@ -40,8 +40,8 @@ Failed(ev) ==
           [] c = "present_remove_raises" -> ev.op = "remove" /\ ev.arg \in model /\ ev.raised # ""
           [] c = "add_raises" -> ev.op = "add" /\ ev.raised # ""
           [] c = "drawall_members" -> ev.op = "drawall" /\ SetOf(ev.results) # model
-          [] c = "drawall_uniform" -> ev.op = "drawall" /\
-                 (Len(ev.results) # Cardinality(model) \/ \E i \in DOMAIN ev.arity : ev.arity[i] # Cardinality(model))}
+          [] c = "drawall_uniform" -> ev.op = "drawall" /\           \* exact law of one draw over its whole decision tree
+                 ({ev.pm[i][1] : i \in DOMAIN ev.pm} # model \/ \E i \in DOMAIN ev.pm : ev.pm[i][2] * Cardinality(model) # ev.pm[i][3])}
 
 (* the implementation-shaped next state *)
 ImplAfter(ev) ==
